@@ -48,11 +48,19 @@ def unbig(limbs) -> int:
     return v
 
 
+OUT_OF_RANGE = 2_000_000_011       # stands for "beyond TLC's native integers" (sign kept)
+OUT_OF_RANGE_SEEN: list = []
+
+
 def small(n) -> int:
-    """An int that TLC can hold natively (checked)."""
+    """An int that TLC can hold natively.  The drivers keep their own data in range by construction, so a value
+    beyond it is something the code under test returned (a wrapped or exploded number): it is replaced by a
+    marker that equals no expected value, so that it ends in a verdict.  If a run meets such a value and still
+    finds nothing, finish() reports a machinery failure (then it was the driver's own data after all)."""
     n = int(n)
     if not -INT_MAX - 1 <= n <= INT_MAX:
-        raise MachineryError(f"integer {n} does not fit TLC's 32-bit integers; use big()")
+        OUT_OF_RANGE_SEEN.append(n)
+        return OUT_OF_RANGE if n > 0 else -OUT_OF_RANGE
     return n
 
 
@@ -244,6 +252,12 @@ def classify(report: Report, verdicts: dict, cases_by_id: dict, *, family: str) 
 # ----------------------------------------------------------------------------- output
 def finish(report: Report) -> int:
     """Write evidence and replays, print verdict lines, return the exit code."""
+    if OUT_OF_RANGE_SEEN and not report.violations:
+        raise MachineryError(f"{len(OUT_OF_RANGE_SEEN)} integers beyond TLC's native range were recorded "
+                             f"(e.g. {OUT_OF_RANGE_SEEN[0]}) and no verdict names them: use big()")
+    if OUT_OF_RANGE_SEEN:
+        report.notes.append(f"{len(OUT_OF_RANGE_SEEN)} recorded integers were beyond TLC's native range and were "
+                            f"replaced by the marker {OUT_OF_RANGE} (e.g. {OUT_OF_RANGE_SEEN[0]})")
     EVIDENCE.mkdir(parents=True, exist_ok=True)
     known = {f["id"]: f for f in load_known(report.prop)}
     for fid, cnt in sorted(report.known_hits.items()):
